@@ -104,9 +104,25 @@ type Scenario struct {
 	ACL         *ACLSpec  `json:"acl,omitempty"`
 	Subs        []SubSpec `json:"subs"`
 	Steps       []Step    `json:"steps"`
+	TNames      []string  `json:"tnames,omitempty"` // target names (default t0, t1, ...)
 }
 
-func targetName(i int) string { return fmt.Sprintf("t%d", i) }
+// targetNames, if set by the scenario being run, replaces the default names t0, t1, ... (target names
+// are free-form strings: host names, names containing the glob character without being the glob, ...).
+var targetNames []string
+
+func targetName(i int) string {
+	if i >= 0 && i < len(targetNames) && targetNames[i] != "" {
+		return targetNames[i]
+	}
+	return fmt.Sprintf("t%d", i)
+}
+
+var oddTargetNames = [][]string{
+	{"*.pop3.example.net", "t*", "T0", "t0 "},
+	{"Dev-1", "dev-1", "*x", "x*y"},
+	{"a/b", "a", "a:b", "é"},
+}
 
 // ---- generators ----------------------------------------------------------------------
 
@@ -485,6 +501,10 @@ func genScenario(prop string) func(t *rapid.T) *Scenario {
 			return genBurstScenario(t)
 		}
 		richNames = rapid.IntRange(0, 2).Draw(t, "rich-names") == 0
+		var tnames []string
+		if rapid.IntRange(0, 5).Draw(t, "odd-target-names") == 0 {
+			tnames = rapid.SampledFrom(oddTargetNames).Draw(t, "tnames")
+		}
 		sc := &Scenario{Targets: rapid.IntRange(pr.minTargets, pr.maxTargets).Draw(t, "targets")}
 		sc.EventDriven = rapid.IntRange(0, 3).Draw(t, "eventdriven") > 0
 		if pr.timeout {
@@ -506,6 +526,7 @@ func genScenario(prop string) func(t *rapid.T) *Scenario {
 			acl.Dynamic = rapid.IntRange(0, 3).Draw(t, "dynamic-acl") == 0
 			sc.ACL = acl
 		}
+		sc.TNames = tnames
 		sc.Subs = rapid.SliceOfN(rapid.Custom(genSub(pr, sc.Targets, users)), 1, pr.maxSubs).Draw(t, "subs")
 		wop := rapid.Custom(genWOp(pr, sc.Targets))
 		for i := 0; i < pr.preload; i++ {
